@@ -448,6 +448,14 @@ var vpPairStructures = [][][]int{
 	{{1, 2, 3, 4}, {2, 3, 4, 1}},
 	{{5, 2, 1, 3, 4}, {3, 1, 5}},
 	{{1, 2, 3}, {2, 3, 4}, {1, 4}},
+	// 4: a binary constraint, then two weighted constraints over its variables and one more
+	{{2, 3}, {4, 2, 1}, {3, 4, 2, 1}},
+}
+
+// vpPairWeights: coefficients and degree (last entry) of the constraints of a
+// structure; structures without an entry get symbolic coefficients and degrees.
+var vpPairWeights = map[int][][]int{
+	4: {{1, 1, 1}, {2, 1, 2, 3}, {1, 2, 2, 2, 3}},
 }
 
 // vpAllSatisfied: with every variable assigned and no conflict reported, every
@@ -500,9 +508,33 @@ func vpConflictOK(s *Solver, confl *Clause) {
 	zzvp.Assert(sum < confl.Cardinality(), "propagation returned a conflict constraint that is not falsified")
 }
 
+// vpLearnOK runs the conflict analysis on the conflict just reported and
+// asserts its soundness for a symbolic assignment: whatever satisfies the
+// problem satisfies the learned clause (or unit); an empty learned clause
+// means no assignment satisfies the problem.
+func vpLearnOK(s *Solver, confl *Clause, lvl decLevel, n int, holds func(a int) bool) {
+	a := zzvp.Int("la", 0, (1<<uint(n))-1)
+	learned, unit := s.learnClause(confl, lvl)
+	switch {
+	case learned != nil:
+		r := false
+		for i := 0; i < learned.Len(); i++ {
+			r = zzvp.Or(r, vpLitTrue(int(learned.Get(i).Int()), a))
+		}
+		zzvp.Assert(zzvp.Implies(holds(a), r), "conflict analysis learned a clause that is not a consequence of the problem")
+		zzvp.Reach("learned-clause")
+	case unit != -1:
+		zzvp.Assert(zzvp.Implies(holds(a), vpLitTrue(int(unit.Int()), a)), "conflict analysis learned a unit that is not a consequence of the problem")
+		zzvp.Reach("learned-unit")
+	default:
+		zzvp.Assert(zzvp.Not(holds(a)), "conflict analysis derived the empty clause but the problem has a model")
+		zzvp.Reach("learned-empty")
+	}
+}
+
 // vpDrive decides variables in every order and polarity until all are
 // assigned or a conflict is reported, checking the invariants on the way.
-func vpDrive(s *Solver, n, steps int) {
+func vpDrive(s *Solver, n, steps int, holds func(a int) bool) {
 	lvl := decLevel(2)
 	for step := 0; step < steps; step++ {
 		var free []int
@@ -522,6 +554,9 @@ func vpDrive(s *Solver, n, steps int) {
 		if confl != nil {
 			vpConflictOK(s, confl)
 			zzvp.Reach("conflict")
+			if holds != nil {
+				vpLearnOK(s, confl, lvl, n, holds)
+			}
 			return
 		}
 		vpMissedPropagation(s)
@@ -541,7 +576,9 @@ func vpDrive(s *Solver, n, steps int) {
 // every sequence of up to `steps` decisions.
 func VP_C02_pb_fixpoint() {
 	zzvp.IntMode(true)
-	st := vpPairStructures[zzvp.Choose("structure", zzvp.Param("nstruct", len(vpPairStructures)))]
+	sti := zzvp.Param("stfrom", 0) + zzvp.Choose("structure", zzvp.Param("nstruct", 4))
+	st := vpPairStructures[sti]
+	fixed := vpPairWeights[sti]
 	W := zzvp.Param("W", 3)
 	maxSym := zzvp.Param("maxsigns", 3)
 	card := zzvp.Param("card", 0) == 1 // cardinality front end (unit coefficients)
@@ -549,7 +586,7 @@ func VP_C02_pb_fixpoint() {
 	var pbs []PBConstr
 	var cds []CardConstr
 	var refs []vpRef
-	for _, vars := range st {
+	for ci, vars := range st {
 		lits := make([]int, len(vars))
 		ws := make([]int, len(vars))
 		sum := 0
@@ -563,12 +600,19 @@ func VP_C02_pb_fixpoint() {
 				cnt++
 			}
 			ws[i] = 1
-			if !card {
+			if fixed != nil {
+				ws[i] = fixed[ci][i]
+			} else if !card {
 				ws[i] = zzvp.Int("w", 1, W)
 			}
 			sum += ws[i]
 		}
-		d := zzvp.Int("d", 1, len(vars)*W)
+		var d int
+		if fixed != nil {
+			d = fixed[ci][len(vars)] + zzvp.Choose("dshift", zzvp.Param("dshift", 1))
+		} else {
+			d = zzvp.Int("d", 1, len(vars)*W)
+		}
 		zzvp.Assume(d <= sum)
 		refs = append(refs, vpRef{vpCopy(lits), vpCopy(ws), 0, d})
 		if card {
@@ -592,5 +636,9 @@ func VP_C02_pb_fixpoint() {
 		return
 	}
 	s := New(pb)
-	vpDrive(s, n, zzvp.Param("steps", n+1))
+	var holds func(a int) bool
+	if zzvp.Param("learn", 0) == 1 {
+		holds = func(a int) bool { return vpRefsHold(refs, a) }
+	}
+	vpDrive(s, n, zzvp.Param("steps", n+1), holds)
 }
